@@ -6,7 +6,7 @@ from vf import chart as C
 def _norm_acts(acts, dm):
     out = []
     for a in acts:
-        if a[0] == 'log' and dm == 'null': out.append(('log', a[1], None))
+        if a[0] == 'log' and (dm == 'null' or (dm == 'promela' and a[1].startswith('RV'))): out.append(('log', a[1], None))   # RV: _event.name, rendered for lua only
         else: out.append(tuple(a))
     return out
 
